@@ -47,6 +47,8 @@ import PercevalModel.Lemmas.C06Anon
 import PercevalModel.Lemmas.C06Place
 import PercevalModel.Lemmas.C06PlaceK
 import PercevalModel.Lemmas.C06Route
+import PercevalModel.Lemmas.C06Rename
+import PercevalModel.Lemmas.C06Rows
 
 namespace PM.C06
 
@@ -771,6 +773,29 @@ theorem sampler_no_filter_law {P : Params} (hP : P.WF) (hperf : isPerfect P = fa
   rw [mass_eq_E, h, ← mass_eq_E]
   exact (dist_tensor hP (fun _ _ => 1) hne t).2
 
+/-- **The `k` samples of one no-filter request are `k` independent draws from `generate_distribution`** — the
+re-indexing made formal.  `_generate_samples_no_filter` makes, mode after mode and requested photon after requested
+photon, ONE call `bsd.sample(k)` = one `random.choices(…, k=k)` per requested photon; sample `i` is built from the
+`i`-th index of every call (`nfSamples`: rows of the array of draws, cut into the calls of each mode).  With every
+call's `k` indices independent and ideal and the calls independent, EVERY test function `G` of the list of the `k`
+samples has the expectation `k` independent draws from the one-sample law give it — which is the untrimmed law of
+`generate_distribution` (`sampler_no_filter_law`) —, in particular products of functions of the single samples
+factorise with `E g (generate_distribution)` as factors. -/
+theorem sampler_no_filter_samples_iid {P : Params} (hP : P.WF) (hperf : isPerfect P = false) {ns : List ℕ}
+    (hne : ns ≠ []) (t k : ℕ) :
+    (∀ G : List State → ℚ,
+      E (fun calls => G (nfSamples (nfDists P ns t) k calls))
+          (prodLaw ((nfDists P ns t).flatten.map fun d => iid (sampleIdxLaw d) k)) =
+        E G (iid (nfLaw P ns t) k)) ∧
+    (∀ g : State → ℚ,
+      E (fun calls => ((nfSamples (nfDists P ns t) k calls).map g).prod)
+          (prodLaw ((nfDists P ns t).flatten.map fun d => iid (sampleIdxLaw d) k)) =
+        E g (generateAt P 0 ns t) ^ k) ∧
+    (∀ calls, (nfSamples (nfDists P ns t) k calls).length = k) := by
+  refine ⟨fun G => nfSamples_iid (nfDists P ns t) k G, fun g => ?_, fun calls => nfSamples_length _ k calls⟩
+  rw [nfSamples_iid_prod, ← nfLaw_same hP hperf hne t g]
+  rfl
+
 /-- **The event-table route draws from `generate_distribution` conditioned on the photon filter** — proved for the
 photons a sample carries, NOT for their arrangement over the modes.  `_events_to_samples` is a deterministic function
 of the event index, of the booleans of `_generate_distinguishability` and of the permutation `random.shuffle` effects
@@ -838,6 +863,23 @@ theorem sampler_filtered_law {P : Params} (hP : P.WF) {ns : List ℕ} (hne : ns 
       E (fun s => F (profile s)) (generateAt P 0 ns t) = E (fun x => F (blockSum ns x)) (iid (physOne P) ns.sum)) :=
   ⟨fun F => fLaw_profile_law hP hne f t hf hperf F, fun cs => fLaw_profile_pmf hP hne f t hf hperf cs,
     fun n H => table_shuffle_iid P n H, fun F => generateAt_profile hP hne t F⟩
+
+/-- **The profile is the state up to the names of its fresh tags.**  Two states in each of which every fresh tag occurs
+once (`tags_fresh` for `generate_distribution`, first clause of `sampler_filtered_law_partial` for the sampler), the
+second of which writes the common tag in one way (`c0`; `{_:0}` in the code), have the same per-mode class profile
+IF AND ONLY IF one is the other with its tags renamed (`Renamed ρ s s'`: mode by mode, up to the order of the photons
+inside a mode) by a renaming `ρ` that keeps common tags common and fresh tags fresh — and the renaming can be chosen
+injective on the fresh tags of the first state.  So `sampler_filtered_law`, stated for functions of the profile, is the
+statement "the sample, up to renaming of its fresh tags, follows `generate_distribution` conditioned on the filter". -/
+theorem profile_is_state_up_to_renaming (s s' : State) (c0 : Tag) (hc0 : commonTag c0 = true)
+    (hs : (freshTags s.flatten).Nodup) (hs' : (freshTags s'.flatten).Nodup)
+    (hc' : ∀ tg ∈ s'.flatten, commonTag tg = true → tg = c0) :
+    (profile s = profile s' ↔
+      ∃ ρ : Tag → Tag, (∀ tg, commonTag (ρ tg) = commonTag tg) ∧ Renamed ρ s s') ∧
+    (profile s = profile s' →
+      ∃ ρ : Tag → Tag, (∀ tg, commonTag (ρ tg) = commonTag tg) ∧
+        (∀ a ∈ freshTags s.flatten, ∀ b ∈ freshTags s.flatten, ρ a = ρ b → a = b) ∧ Renamed ρ s s') :=
+  ⟨profile_eq_iff_renamed s s' c0 hc0 hs hs' hc', renamed_of_profile_eq s s' c0 hc0 hs hs' hc'⟩
 
 /-- **The hypotheses of the event-table theorems are the code's own routing condition.**  Whenever `generate_samples`
 takes the event-table route (imperfect source, a photon filter, `brightness * transmittance ≠ 0`, a non-empty filtered
@@ -1204,5 +1246,11 @@ example : profile (fSample true [1, 1] 0 (1, 0, 0) [true] [0, 1]) = [(1, 0), (0,
 -- hypothesis of `sampler_events_route_wellposed` / `sampler_events_route_law`: `sampRoute exP 2 1 = .events` (above)
 -- `sampler_filtered_samples_iid` has no hypotheses; the number of booleans really depends on the events
 example : boolsNeeded [(1, 0, 0), (0, 1, 0), (0, 0, 2)] = 3 := by decide
+
+-- hypotheses of `profile_is_state_up_to_renaming`: two one-mode states with a common and a fresh photon each
+example : commonTag (some 0) = true ∧ (freshTags ([[some 0, some 3]] : State).flatten).Nodup ∧
+    (freshTags ([[some 0, some 5]] : State).flatten).Nodup ∧
+    (∀ tg ∈ ([[some 0, some 5]] : State).flatten, commonTag tg = true → tg = some 0) := by
+  refine ⟨rfl, by decide, by decide, by decide⟩
 
 end PM.C06
